@@ -14,6 +14,7 @@ import (
 	"github.com/openconfig/gribigo/aft"
 
 	aftpb "github.com/openconfig/gribi/v1/proto/gribi_aft"
+	enums "github.com/openconfig/gribi/v1/proto/gribi_aft/enums"
 	spb "github.com/openconfig/gribi/v1/proto/service"
 	wpb "github.com/openconfig/ygot/proto/ywrapper"
 )
@@ -68,6 +69,8 @@ type vfOpD struct {
 	tag    string
 	hasPop bool
 	pop    bool
+	// encapsulate-header / decapsulate-header enum numbers of a next-hop as on the wire (0 = unset; any int32)
+	encap, decap int32
 }
 
 func (d *vfOpD) proto() *spb.AFTOperation {
@@ -135,6 +138,8 @@ func (d *vfOpD) proto() *spb.AFTOperation {
 			if d.hasPop {
 				k.NextHop.PopTopLabel = &wpb.BoolValue{Value: d.pop}
 			}
+			k.NextHop.EncapsulateHeader = enums.OpenconfigAftTypesEncapsulationHeaderType(d.encap)
+			k.NextHop.DecapsulateHeader = enums.OpenconfigAftTypesEncapsulationHeaderType(d.decap)
 		}
 		op.Entry = &spb.AFTOperation_NextHop{NextHop: k}
 	}
@@ -165,6 +170,8 @@ type vfRefNH struct {
 	tag    string
 	hasPop bool
 	pop    bool
+	encap  int32
+	decap  int32
 }
 
 type vfRefNI struct {
@@ -237,7 +244,8 @@ func (r *vfRef) invalid(d *vfOpD) bool {
 		}
 		return false
 	case vfKNH:
-		return d.idx == 0
+		// an enum number its type does not define is invalid content
+		return vfOr(d.idx == 0, vfOr(!vfEncapDefined(d.encap), !vfEncapDefined(d.decap)))
 	}
 	// top-level entries
 	if !d.hasNHG || d.nhg == 0 {
@@ -360,7 +368,7 @@ func (r *vfRef) apply(d *vfOpD) {
 		}
 		n.nhg[d.idx] = g
 	case vfKNH:
-		n.nh[d.idx] = &vfRefNH{hasTag: d.hasTag, tag: d.tag, hasPop: d.hasPop, pop: d.pop}
+		n.nh[d.idx] = &vfRefNH{hasTag: d.hasTag, tag: d.tag, hasPop: d.hasPop, pop: d.pop, encap: d.encap, decap: d.decap}
 	}
 }
 
@@ -608,6 +616,7 @@ func (r *vfRef) compareP(real *RIB, p string, tablesOnly bool) {
 			} else {
 				vfAssert(vfAnd(x.hasPop, *e.PopTopLabel == x.pop), p+"nh-pop-top-label-equals-last-acked")
 			}
+			vfAssert(vfAnd(int64(e.EncapsulateHeader) == int64(x.encap), int64(e.DecapsulateHeader) == int64(x.decap)), p+"nh-encapsulation-headers-equal-last-acked")
 		}
 		if tablesOnly {
 			continue
